@@ -3799,8 +3799,10 @@ fn main() {
             })();
             match r {
                 Ok((text, h, l0, l1)) => {
-                    println!("translated {}::{} lines {}-{}", f.rs, name, l0, l1);
-                    writeln!(fo.body, "/- {} {} `{}` (lines {}-{}, token hash {}) -/", f.rs, kind, name, l0, l1, h).unwrap();
+                    if kind != "lvar" {
+                        println!("translated {}::{} lines {}-{}", f.rs, name, l0, l1);
+                        writeln!(fo.body, "/- {} {} `{}` (lines {}-{}, token hash {}) -/", f.rs, kind, name, l0, l1, h).unwrap();
+                    }
                     fo.body += &text;
                     fo.body.push('\n');
                 }
@@ -3824,6 +3826,9 @@ fn main() {
         }
         if fo.body.contains("Rs.Vec") || fo.body.contains("Rs.HashMap") || fo.body.contains("Rs.R.forRange") || fo.body.contains("Rs.Arc") {
             writeln!(text, "import ZipVerif.Basic.RsGlue").unwrap();
+        }
+        if fo.body.contains("Rs.Aes") || fo.body.contains("Rs.Hmac") {
+            writeln!(text, "import ZipVerif.Basic.RsAes").unwrap();
         }
         for i in &fo.imports { writeln!(text, "import ZipVerif.Gen.{i}").unwrap(); }
         writeln!(text, "/- GENERATED by rs2lean from /repo/src/{} on every check run. Do not edit. -/", f.rs).unwrap();
